@@ -9,6 +9,16 @@ TB = ("Trusted: Lean 4.33 kernel; axioms propext / Classical.choice / Quot.sound
       "every run; no sorry, native_decide, bv_decide or user axioms); the correspondence harness and its generators; ")
 
 CHECKS = {
+    "C04": dict(
+        text="Lean theorems over the model of DictCBORSerializable's canonical sort and of Asset/MultiAsset/Value "
+             "serialization: encoded bytes are a function of content (any two insertion orders / stored zeros / empty "
+             "policies / arithmetic histories with equal content give equal bytes), keys emitted strictly sorted by "
+             "(length of encoding, bytes), no zero quantity or empty policy emitted, bare integer iff no asset, "
+             "reachable states of insert/add/sub/normalize histories stay valid. Tied to /repo by differential runs "
+             "over histories and six dict-like classes, judged against an independent reference encoder.",
+        ref="3 C04", technique="Lean 4 proof (canonical form is a function of content) + model/implementation correspondence",
+        note=TB + "cbor2's byte-level encoder is modelled by Cbor.encode and compared byte for byte on every case; "
+                  "decode/encode steps of histories are covered by the differential run, not by a theorem."),
     "C05": dict(
         text="Lean theorems over the Python-faithful association-list model of Asset/MultiAsset/Value: add/sub exact per "
              "asset over unbounded Int, results normal, == and <= component-wise (the latter proved on the region where it "
